@@ -337,14 +337,14 @@ func runC07(c *Ctx) {
 	// ---- (4) the whole client against the simulated node, persisted-seqno reports arriving while Open() is still loading
 	// the checkpoints (the node answers those reads late) and never changing afterwards (an idle bucket): every copy has
 	// reported, so every document must come through
-	nw := c.Pick(3, 12)
+	nw := c.Pick(4, 12)
 	wres := make([]*c13WireRes, nw)
 	wseed := make([]int64, nw)
 	for i := range wseed {
 		wseed[i] = rng.Int63()
 	}
 	Parallel(nw, 4, func(i int) {
-		cr := RunChild("c13wire", c13WireArg{Seed: wseed[i], Mitigation: true, SlowLoad: true}, 90*time.Second)
+		cr := RunChild("c13wire", c13WireArg{Seed: wseed[i], Mitigation: true, SlowLoad: i%2 == 0, SlowOpen: i%2 == 1}, 90*time.Second)
 		for _, l := range cr.Lines {
 			if strings.HasPrefix(l, "RESULT ") {
 				r := &c13WireRes{}
@@ -355,7 +355,7 @@ func runC07(c *Ctx) {
 		}
 	})
 	for i, r := range wres {
-		rep := map[string]interface{}{"how": "vh child c13wire", "arg": c13WireArg{Seed: wseed[i], Mitigation: true, SlowLoad: true}}
+		rep := map[string]interface{}{"how": "vh child c13wire", "arg": c13WireArg{Seed: wseed[i], Mitigation: true, SlowLoad: i%2 == 0, SlowOpen: i%2 == 1}}
 		c.Eval(fmt.Sprint("whole-client", wseed[i]), true)
 		c.Count("whole-client-slow-load")
 		if r == nil || !r.Ready {
@@ -364,7 +364,7 @@ func runC07(c *Ctx) {
 		}
 		rep["observed"] = r
 		if r.Consumed < r.Sent {
-			c.Violate("first-report-lost", fmt.Sprintf("every copy of every vBucket reported everything persisted while Open() was loading the checkpoints; %d documents were sent afterwards, %d reached the consumer within 3 s: the others wait at the gate although the reported minimum covers them",
+			c.Violate("first-report-lost", fmt.Sprintf("every copy of every vBucket reported everything persisted while Open() was still loading the checkpoints / opening the streams; %d documents were sent afterwards, %d reached the consumer within 3 s: the others wait at the gate although the reported minimum covers them",
 				r.Sent, r.Consumed), rep)
 		}
 	}
